@@ -4,17 +4,30 @@ from .facts import CASTS, WRAPPERS, CALLS
 
 
 def definitions(facts):
-    """var -> defining term, from ("==", var, term) facts (single, non-self-referential)."""
-    defs = {}
+    """var -> defining term, from ("==", var, term) facts. A constant definition wins; otherwise the definition
+    must be unique and non-self-referential."""
+    consts, others = {}, {}
     for f in facts:
         if f[0] == "==":
             for (x, y) in ((f[1], f[2]), (f[2], f[1])):
-                if x[0] == "var" and not mentions(y, x) and y[0] != "var":
-                    if x in defs and defs[x] != y:
-                        defs[x] = None
+                if x[0] != "var" or mentions(y, x):
+                    continue
+                if y[0] == "const":
+                    consts.setdefault(x, y)
+                elif y[0] != "var":
+                    if x in others and others[x] != y:
+                        others[x] = None
                     else:
-                        defs.setdefault(x, y)
-    return {k: v for k, v in defs.items() if v is not None}
+                        others.setdefault(x, y)
+    # var == var where the other side has a constant definition
+    for f in facts:
+        if f[0] == "==" and f[1][0] == "var" and f[2][0] == "var":
+            for (x, y) in ((f[1], f[2]), (f[2], f[1])):
+                if y in consts and x not in consts:
+                    consts[x] = consts[y]
+    defs = {k: v for k, v in others.items() if v is not None and k not in consts}
+    defs.update(consts)
+    return defs
 
 
 def expand(t, defs, depth=6):
